@@ -10,7 +10,7 @@ from typing import Any
 
 from ..common import UnitResult, case_rng, chunks, show
 from ..vlab import show_timeline
-from ._c04_ops import (C04_ENTRIES, C04_STAGES, ENTRIES, Env, count_children, gen_source, new_lab, show_tree,
+from ._c04_ops import (ACTION_BUDGET, C04_ENTRIES, C04_STAGES, ENTRIES, Env, count_children, gen_source, new_lab, show_tree,
                        tree_trace)
 
 ID = "C04"
@@ -20,8 +20,8 @@ RULE = ("seeded random cases: one catalog entry (a call shape of one library fun
         "1-4 generated cold probe sources (0..5 elements, ending in C/E/never), optionally followed by 1-2 further "
         "single-source operator stages; the ONE resulting observable object is subscribed 2-3 times in one of three "
         "schedules: seq (next subscription after the previous one terminated/went quiet, gap 0..13), overlap (offsets "
-        "taken from the sources' own event times, so the earlier subscription is usually still active), cut (first "
-        "subscription disposed at a generated relative time; prefixes before that time are compared). "
+        "taken from the sources' own event times, so the earlier subscription is usually still active), cut (sequential, "
+        "every subscription disposed at the same generated relative time; notifications before that time are compared). "
         "non-trivial = the first subscription received >= 1 notification; distinct = digest of "
         "(entry, arguments, stages, source timelines, schedule)")
 ASSUMPTIONS = ["reactivex.testing.TestScheduler is the clock and orders same-instant actions FIFO (checked by C28)",
@@ -29,13 +29,13 @@ ASSUMPTIONS = ["reactivex.testing.TestScheduler is the clock and orders same-ins
                "exceptions are compared by type and arguments (operators create a fresh exception object per subscription)",
                "callbacks are pure functions of their arguments; those marked `since` also read the virtual time since the "
                "current subscription began and are used in the sequential schedules only"]
-CASES = {"quick": 8000, "thorough": 240000}
+CASES = {"quick": 6400, "thorough": 240000}
 REQUIRED = {"set:entries": len(C04_ENTRIES),
             "overlap_active": {"quick": 800, "thorough": 20000},
             "seq_after_terminal": {"quick": 800, "thorough": 20000},
             "cut_prefix_nonempty": {"quick": 150, "thorough": 4000},
             "children_compared": {"quick": 300, "thorough": 8000},
-            "since_cases": {"quick": 200, "thorough": 5000},
+            "since_cases": {"quick": 150, "thorough": 5000},
             "notifications_compared": {"quick": 20000, "thorough": 500000}}
 
 # mechanism labels of triaged findings (key = library function); anything else is reported as 'resubscription-differs'
@@ -50,6 +50,7 @@ LABELS = {
     "flat_map_indexed": "index-generator-built-once-via-map_indexed",
     "skip_while_indexed": "index-generator-built-once-via-map_indexed",
     "switch_map_indexed": "index-generator-built-once-via-map_indexed",
+    "slice": "index-generator-built-once-via-map_indexed",
 }
 T0S = [0, 7, 100]
 LEAKS: list = []
@@ -93,7 +94,7 @@ def describe(case: dict) -> dict:
     elif case["mode"] == "overlap":
         d["start_offsets"] = case["offs"]
     else:
-        d["dispose_first_at_rel"] = case["cut"]
+        d["dispose_each_at_rel"] = case["cut"]
         d["gaps_after_quiet"] = case["gaps"]
     return d
 
@@ -140,7 +141,7 @@ def execute(case: dict, nstages: int | None = None) -> Run:
             rec[3] = ex
 
     def segment() -> None:
-        lab.budget = lab.nactions + 6000
+        lab.budget = lab.nactions + ACTION_BUDGET
         lab.over_budget = False
         n0 = len(lab.escaped_to_scheduler)
         lab.run()
@@ -163,7 +164,10 @@ def execute(case: dict, nstages: int | None = None) -> Run:
         for k in range(1, case["nsub"]):
             if run.over_budget[-1]:
                 break
-            lab.at(lab.now() + case["gaps"][k - 1], lambda k=k: do_sub(k))
+            t = lab.now() + case["gaps"][k - 1]
+            lab.at(t, lambda k=k: do_sub(k))
+            if mode == "cut":   # every subscription is disposed at the same relative time
+                lab.at(t + case["cut"], lambda k=k: run.subs[k][0].dispose())
             segment()
     return run
 
@@ -198,13 +202,21 @@ def mismatch(case: dict, run: Run) -> tuple | None:
 
 
 def localise(case: dict) -> str:
-    """shortest pipeline prefix that already differs -> the stage that introduced the difference"""
+    """Stage that introduced the difference: the shortest pipeline prefix that already differs is found by re-running
+    the same schedule on every prefix; inside that prefix a stage whose library function has a triaged finding
+    (LABELS) is preferred, because such a stage pollutes everything downstream of it even when the difference only
+    becomes visible after a later stage changed how much of the shared iterator is consumed."""
+    names = [case["entry"]] + [sn for sn, _ in case["stages"]]
     n = len(case["stages"])
+    fail = n
     for k in range(0, n):
-        run = execute(case, k)
-        if mismatch(case, run) is not None:
-            return case["entry"] if k == 0 else case["stages"][k - 1][0]
-    return case["stages"][n - 1][0] if n else case["entry"]
+        if mismatch(case, execute(case, k)) is not None:
+            fail = k
+            break
+    for nm in names[:fail + 1]:
+        if ENTRIES[nm].group in LABELS:
+            return nm
+    return names[fail]
 
 
 def run_case(seed: int, idx: int, res: UnitResult) -> None:
